@@ -1,8 +1,11 @@
 ------------------------------ MODULE UnitRoute ------------------------------
 (* Design level of C18: how a bidirectional replay unit is admitted on a       *)
 (* cluster target.  A unit is a sequence of commands; a command is either      *)
-(* "keyed" with a non-empty sequence of keys or "opaque" (its keys cannot be   *)
-(* determined).  The admission scan visits the keys one at a time (one TLC     *)
+(* "keyed" with a non-empty sequence of keys, "counted" (the number of keys is *)
+(* part of the command's content and a further argument that is not a key      *)
+(* follows them - EVAL, ZUNIONSTORE, LMPOP ...; the argument may look exactly   *)
+(* like a key of another slot) or "opaque" (its keys cannot be determined).    *)
+(* The admission scan visits the keys one at a time (one TLC                    *)
 (* step per key, as syncer/bisync.go buildBisyncReplayUnitWithMode does),      *)
 (* remembers the slot of the first key and refuses at the first opaque         *)
 (* command or differing slot.  Slots are Redis Cluster's HASH_SLOT             *)
@@ -21,6 +24,7 @@
 EXTENDS Slot, TLC, FiniteSets, Json, SequencesExt
 
 CONSTANTS Pool,      \* set of keys (byte sequences)
+          ArgPool,   \* non-key arguments of counted commands (byte sequences, chosen to look like keys)
           MaxCmds, MaxKeys
 
 \* default pool (cfg: Pool <- DefaultPool): same tag / other tag / empty first tag / two tags / nested braces /
@@ -35,13 +39,17 @@ DefaultPool == { <<123,97,125,120>>,            \* {a}x
                  <<120,123,98,125,123,97,125>>, \* x{b}{a}  tag b
                  <<123,195,169,125,255>> }      \* {e-acute}\xff  non-ASCII bytes inside and outside the tag
 
+DefaultArgPool == { <<123,98,125,120>>, <<123,97,125,121>> }   \* {b}x  {a}y
+
 KeySeqs == UNION {[1..n -> Pool] : n \in 1..MaxKeys}
-Cmds == {[kind |-> "keyed", keys |-> ks] : ks \in KeySeqs} \cup {[kind |-> "opaque", keys |-> <<k>>] : k \in Pool}
+Cmds == {[kind |-> "keyed", keys |-> ks, arg |-> <<>>] : ks \in KeySeqs}
+        \cup {[kind |-> "counted", keys |-> ks, arg |-> a] : ks \in KeySeqs, a \in ArgPool}
+        \cup {[kind |-> "opaque", keys |-> <<k>>, arg |-> <<>>] : k \in Pool}
 UnitsAll == UNION {[1..n -> Cmds] : n \in 1..MaxCmds}
 
 \* definitional verdict
 AllKeys(u) == UNION {{u[i].keys[j] : j \in 1..Len(u[i].keys)} : i \in 1..Len(u)}
-Routable(u) == /\ \A i \in 1..Len(u) : u[i].kind = "keyed"
+Routable(u) == /\ \A i \in 1..Len(u) : u[i].kind # "opaque"
                /\ Cardinality({HashSlot(k) : k \in AllKeys(u)}) = 1
 
 VARIABLES unit, ci, ki, slot, verdict, sent
